@@ -675,3 +675,8 @@ def run(repo: Repo, rep: Report, tier: str) -> None:
     ok17 = any(g17.dominates(d, retype17[0]) for d in declines)
     rep.check(ok17, "C01-R17", "_try_fold_projection_into_source declines for a pass-through gate", "`return None` for a copy-count decider dominates the retyping store" if ok17 else
               "`((a > 0) : b) | \"signal-O\"` renames the gate's output to signal-O while it still copies the input count of signal-O (nothing)", pf17.loc(retype17[0]))
+
+    # ---------------- R18 --------------------------------------------------------------
+    from .shared import borrow as _borrow01b
+    _borrow01b(repo, rep, "C10", "C10-R18", "C01-R18", "a value that is both a place() coordinate and an operand is still computed: `Signal pos = base + 2;` used as a coordinate and in "
+               "`pos * s` keeps its combinator", floor=3)
